@@ -202,36 +202,50 @@ def execute(case):
         warnings.simplefilter('ignore')
         for k, op in enumerate(case['ops']):
             act = op['act']
-            if act == 'construct':
-                mirror = list(op['refs'])
-                R = References(references=[_reference(s, descriptor) for s in mirror],
-                               descriptor=descriptor)
-                # species that share the References object for the whole history
-                for t in case['targets']:
-                    targets.append({'comp': t['comp'], 'on': _statmech(t, t['comp'], descriptor, refs=R),
-                                    'none': _statmech(t, t['comp'], descriptor)})
-                if case.get('lin'):
-                    ln = case['lin']
-                    lin = {'a': ln['a'], 'b': ln['b']}
-                    for nm in ('x', 'y', 'z'):
-                        lin[nm] = _statmech(ln['model'], ln[nm], descriptor, refs=R)
-            elif act == 'append':
-                mirror.append(op['refs'][0])
-                R.append(_reference(op['refs'][0], descriptor))
-            elif act == 'extend':
-                mirror.extend(op['refs'])
-                R.extend([_reference(s, descriptor) for s in op['refs']])
-            elif act == 'pop':
-                if op.get('default'):
-                    mirror.pop()
-                    R.pop()
+            try:
+                if act == 'construct':
+                    mirror = list(op['refs'])
+                    R = References(references=[_reference(s, descriptor) for s in mirror],
+                                   descriptor=descriptor)
+                    # species that share the References object for the whole history
+                    for t in case['targets']:
+                        targets.append({'comp': t['comp'],
+                                        'on': _statmech(t, t['comp'], descriptor, refs=R),
+                                        'none': _statmech(t, t['comp'], descriptor)})
+                    if case.get('lin'):
+                        ln = case['lin']
+                        lin = {'a': ln['a'], 'b': ln['b']}
+                        for nm in ('x', 'y', 'z'):
+                            lin[nm] = _statmech(ln['model'], ln[nm], descriptor, refs=R)
+                elif act == 'append':
+                    new_ref = _reference(op['refs'][0], descriptor)
+                    mirror.append(op['refs'][0])
+                    R.append(new_ref)
+                elif act == 'extend':
+                    new_refs = [_reference(s, descriptor) for s in op['refs']]
+                    mirror.extend(op['refs'])
+                    R.extend(new_refs)
+                elif act == 'insert':
+                    new_ref = _reference(op['refs'][0], descriptor)
+                    mirror.insert(op['i'], op['refs'][0])
+                    R.insert(op['i'], new_ref)
+                elif act == 'pop':
+                    if op.get('default'):
+                        mirror.pop()
+                        R.pop()
+                    else:
+                        mirror.pop(op['i'])
+                        R.pop(op['i'])
+                elif act == 'fit':
+                    R.fit_HoRT_offset()
                 else:
-                    mirror.pop(op['i'])
-                    R.pop(op['i'])
-            elif act == 'fit':
-                R.fit_HoRT_offset()
-            else:
-                raise core.MachineryError('unknown op %r' % (op,))
+                    raise core.MachineryError('unknown op %r' % (op,))
+            except core.MachineryError:
+                raise
+            except Exception as ex:               # the library raised on a valid call: history ends here
+                mism.append({'clause': 'Raises', 'step': k, 'act': act,
+                             'raised': '%s: %s' % (type(ex).__name__, ex)})
+                break
             try:
                 ev, mm = _state_event(act, R, mirror, descriptor)
                 for m in mm:
@@ -283,11 +297,15 @@ def _beh_to_case(h, cid, rnd):
             for r in rec['arg']:
                 op['refs'].append(_grid_refspec(r, count, rnd))
                 count += 1
+        elif rec['act'] == 'insert':
+            op['refs'] = [_grid_refspec(rec['arg'][0], count, rnd)]
+            op['i'] = rec['arg'][1]
+            count += 1
         elif rec['act'] == 'pop':
             op['i'] = rec['arg'][0]
             op['default'] = bool(rec['arg'][1]) and rnd.random() < 0.5
         ops.append(op)
-    nd = max(len(r['x']) for rec in h if rec['act'] in ('construct', 'append', 'extend') for r in rec['arg'])
+    nd = len(h[0]['arg'][0]['x'])
     names = GRID_NAMES[:nd]
     tg = {'comp': {names[0]: 1, names[-1]: 2, 'S': 1}, 'E': -7.5, 'wn': [900.0, 1800.0]}
     lin = {'a': 2, 'b': 1, 'model': {'E': -4.0, 'wn': [1500.0]},
@@ -301,6 +319,8 @@ def _rand_comp(rnd, names, dens=0.6, hi=4):
     while True:
         comp = {n: rnd.randint(1, hi) for n in names if rnd.random() < dens}
         if comp:
+            if rnd.random() < 0.05:                 # a descriptor listed with count 0
+                comp.setdefault(rnd.choice(names), 0)
             return comp
 
 
@@ -354,6 +374,9 @@ def _random_case(rnd, cid):
         r = rnd.random()
         if rest and r < 0.35:
             ops.append({'act': 'append', 'refs': [rest.pop(0)]})
+            cur += 1
+        elif rest and r < 0.42:
+            ops.append({'act': 'insert', 'i': rnd.randrange(0, cur + 1), 'refs': [rest.pop(0)]})
             cur += 1
         elif rest and r < 0.5:
             n = rnd.randint(1, len(rest))
@@ -413,8 +436,8 @@ def _tlc_behaviours(cfg, timeout=900, extra=()):
 
 def run(ctx):
     ctx.coverage['rule'] = (
-        'a case is one history of a References object (construct with fit, then append / extend / pop / '
-        'fit_HoRT_offset calls) together with target species evaluated through it after every call; grid '
+        'a case is one history of a References object (construct with fit, then append / extend / insert / '
+        'pop / fit_HoRT_offset calls) together with target species evaluated through it after every call; grid '
         'cases are complete TLC behaviours of References.tla (state equality on rational projections after '
         'each call), real cases are random real-valued histories (1-8 references over 1-5 descriptors, '
         'elements or groups, equal / close / spread T_ref, dependent rows, tied columns, under- and '
@@ -442,7 +465,7 @@ def run(ctx):
             if bad.ok or bad.violated != 'AlwaysFresh':
                 raise core.MachineryError('MC_References_nostale should be rejected with AlwaysFresh:\n'
                                           + bad.out[-1500:])
-            ctx.notes.append('design model: append/extend/pop leave offset and T_ref stale until '
+            ctx.notes.append('design model: append/extend/insert/pop leave offset and T_ref stale until '
                              'fit_HoRT_offset() (AlwaysFresh rejected for the code-shaped variant, as expected)')
             behs = fut.result()
             ctx.coverage['tlc_behaviours'] = len(behs)
@@ -463,11 +486,12 @@ def run(ctx):
     for tid, (case, (events, mism)) in enumerate(zip(cases, results)):
         ctx.evaluated()
         nfit2 = any(e['ev'] in ('construct', 'fit') and len(e['A']) >= 2 for e in events)
-        if nfit2 or any(o['act'] in ('append', 'extend', 'pop') for o in case['ops']):
+        if nfit2 or any(o['act'] in ('append', 'extend', 'insert', 'pop') for o in case['ops']):
             ctx.nontrivial(_signature(case))
         for m in mism:
             ctx.violation(m.get('clause', 'ReplayState'), case,
-                          tags={'kind': case['kind'], 'descriptor': case['descriptor']}, detail=m)
+                          tags={'kind': case['kind'], 'descriptor': case['descriptor'],
+                                'act': m.get('act', '')}, detail=m)
         traces.append((tid, events))
         for e in events:
             if e['ev'] in ('construct', 'fit'):
@@ -488,20 +512,18 @@ def run(ctx):
                 cnt['grid_fits_rows_independent' if o['det'] else 'grid_fits_rows_dependent'] += 1
         prev = None
         for e in events:
-            if e['ev'] in ('append', 'extend', 'pop'):
+            if e['ev'] in ('append', 'extend', 'insert', 'pop'):
                 same = prev is not None and (e['keys'], e['off'], e['Tref']) == prev
                 cnt['stale_states' if same else 'refitted_states'] += 1
             if e['ev'] in ('construct', 'fit') and len({tuple(t) for t in e['Ti']}) > 1:
                 cnt['fits_with_unequal_T_ref'] += 1
-            if e['ev'] in ('construct', 'fit', 'append', 'extend', 'pop'):
+            if e['ev'] in ('construct', 'fit', 'append', 'extend', 'insert', 'pop'):
                 prev = (e['keys'], e['off'], e['Tref'])
             elif e['ev'] == 'eval' and e['absent']:
                 cnt['evals_with_absent_descriptor'] += 1
             elif e['ev'] == 'repro':
                 cnt['repro_events'] += 1
     ctx.coverage['exercised'] = cnt
-    if ctx.replay_case is None and min(cnt[k] for k in cnt if k != 'refitted_states') == 0:
-        raise core.MachineryError('vacuous run: %r' % (cnt,))
     fails, stats = core.validate_traces('Trace_References', 'Trace', traces)
     ctx.count('traces_validated_against_impl', len(traces))
     ctx.coverage['trace_lines'] = stats['lines']
@@ -517,6 +539,9 @@ def run(ctx):
                       tags={'kind': cases[tid]['kind'], 'descriptor': cases[tid]['descriptor'],
                             'event': ev['ev']},
                       detail={'event_indices': idxs[:10], 'first_event': ev})
+    if (ctx.replay_case is None and not ctx.violations
+            and min(cnt[k] for k in cnt if k != 'refitted_states') == 0):
+        raise core.MachineryError('vacuous run: %r' % (cnt,))
     ctx.assume('grid replays: offsets, T_ref and fitted values of the real object are projected to the '
                'nearest rational with denominator <= %d before being compared by equality with TLC\'s '
                'exact rationals (differences below ~1e-7 are invisible there)' % MAXDEN)
